@@ -109,3 +109,9 @@ c = M.contract("SimpleQueue.put", props=["C04", "C15"])
 c.param("self", T.Ref("SimpleQueue")).param("obj", T.Obj)
 c.raises("put/may-fail-on-pickling-or-pipe", "BaseException")
 c.modifies()
+
+c = M.contract("SimpleQueue.close", props=["C20", "C05"])
+c.param("self", T.Ref("SimpleQueue"))
+c.ensures("close/both-ends", "log_count('conn_close') == 2 and log_arg('conn_close', 0, 0) is self._reader and log_arg('conn_close', 1, 0) is self._writer")
+c.raises_only("close/no-exception")
+c.modifies()
